@@ -41,7 +41,8 @@ def grammar(with_alias=False, quantifiers=True, literals=True):
     if literals:
         batoms += [TRUE, FALSE]
     doms = [tf('xs'), ('set', (num(0), num(1))), ('range', num(0), num(1), False, False),
-            ('range', num(2), num(0), False, False), ('range', num(1), num(1), True, True)]  # reversed by two; empty by exclusion
+            ('range', num(2), num(0), False, False), ('range', num(1), num(1), True, True),  # reversed by two; empty by exclusion
+            ('range', num(0), ('lit', '18446744073709551615', 18446744073709551615), True, False)]  # the uint64 value range
     if with_alias:
         batoms += [AP, AX_GT_0, BP, ('bin', '>', ('index', tf('ys'), alias_field('A', 'x')), num(0))]  # the last: alias only inside an index
         doms.append(alias_field('A', 'xs'))
